@@ -1298,6 +1298,21 @@ func conv(t_dst, t_src types.Type, x value) value {
 			// To at least preserve type-safety, we'll
 			// just return the zero value of the
 			// destination type.
+			//
+			// symgo: the one pattern /repo uses, *(*string)(unsafe.Pointer(&b)) with b []byte, is modelled
+			// as a copying conversion (the bytes are never overwritten while the string is alive).
+			if pd, ok := ut_dst.(*types.Pointer); ok {
+				if bd, ok := pd.Elem().Underlying().(*types.Basic); ok && bd.Kind() == types.String {
+					if up, ok := x.(unsafe.Pointer); ok && up != nil {
+						src := (*value)(up)
+						if bs, ok := (*src).([]value); ok {
+							X.stub("unsafe []byte->string conversion modelled as a copy")
+							var cell value = bytesToStringValue(bs)
+							return &cell
+						}
+					}
+				}
+			}
 			return zero(t_dst)
 		}
 
